@@ -251,6 +251,18 @@ def report(prop, tier, seed, recs, claimed, tv_rec, pre, setup_errors, hm, wall)
         code = 2
     else:
         code = 0
+    # samples: the hardest obligations of this run, written out, plus every witness that was replayed
+    hard = sorted(recs, key=lambda r: -r['solver_s'])[:5]
+    samples = []
+    for r in hard:
+        obs = sorted(r['obligations'], key=lambda o: -o['time_s'])[:2]
+        samples.append(dict(harness_instance=r['label'], bound=r['params'], paths=r['paths'],
+                            obligations=[dict(conjunct=o['name'], verdict=o['verdict'], solver_s=round(o['time_s'], 3), queries=o['queries']) for o in obs],
+                            meaning='assumptions AND path condition AND NOT conjunct was decided by z3 for every path of this harness instance'))
+    for r, k in known[:3]:
+        samples.append(dict(harness_instance=r['label'], known_finding=k['finding'], replayed_witness=k['replay']))
+    for r, v in violations[:3]:
+        samples.append(dict(harness_instance=r['label'], violated=v['goal'], replayed_witness=v['replay'], inputs=v.get('inputs')))
     if not samples:
         samples = [dict(note='no obligation was generated')]
     ev = dict(
